@@ -118,19 +118,19 @@ CHECKS = {
             "to_bin_count inverts; bins <= n_items; tie part in [1, scale]; lower <= value <= upper (unconditional for the geometric bound, "
             "given lower_bound_bins <= k for the instance's bound = C03); strict dominance of fewer bins under every objective; the "
             "out-of-bounds condition of the scratch kernels characterised exactly; range theorem n_items*W*H < 2^63 => no int64 wrap. Uses "
-            "the shared area lemma (pairwise disjoint rectangles inside the bin have area <= W*H).",
+            "the shared area lemma (pairwise disjoint rectangles inside the bin have area <= W*H). The four for-loop kernels (bin_count_and_last_empty, _empty, _last_small, _small) are additionally TRANSLATED from the current source on every run (loop2lean -> lean/Gen/BinCountAnd*.lean) and theorems C02Gen.*_eq_model prove them equal to the hand models for all row lists and scratch contents; the two skyline kernels (while loops) are outside the translator's subset.",
             TB + "known finding int64-wrap (accepted instances with n_items*W*H >= 2^63); lower-bound clause depends on C03 for the DAMV part.",
-            "Lean 4 proof (loop invariants, column counting for skylines, Finset cell counting for areas) + correspondence", "6/C02"),
+            "Lean 4 proof (loop invariants, column counting for skylines, Finset cell counting for areas) + correspondence", "6/C02", ["Props.C02GenLastEmpty", "Props.C02GenEmpty", "Props.C02GenLastSmall", "Props.C02GenSmall"]),
     "C07": ("proof",
             "Lean theorems for every n >= 2, rounds, plan in the space, accepted setting and scratch content: countErrors = 0 <=> the plan is a "
             "feasible round-robin schedule (both directions, spec written from the property text), equals the documented per-rule count on "
             "consistent plans, is non-negative, scratch-independent and never out of bounds (incl. self-play entries). The declared upper "
             "bound is REFUTED in general (theorem upperBound_claim_false = known finding) and proved on the class of consistent plans with "
             "minima <= 1 and non-binding separation_max; every added hypothesis has a Lean counterexample reproduced on the real code. Plus "
-            "exhaustive enumeration of all 12^6 four-team plans (thorough; 2 % slice quick).",
+            "exhaustive enumeration of all 12^6 four-team plans (thorough; 2 % slice quick). The kernel `count_errors` is additionally TRANSLATED from the current source on every run (harness/translate/loop2lean.py -> lean/Gen/CountErrors.lean) and theorem C07Gen.count_errors_eq_model proves the generated definition equal to the hand model TtpErrors.countErrors? for all inputs (any plan shape, any scratch contents; none on exactly the same inputs).",
             TB + "known finding upper_bound_exceeded; numba int64 arithmetic on int8 loads.",
             "Lean 4 proof (column scan state machine <=> declarative run/separation/pair-count specification) + correspondence + enumeration",
-            "6/C07"),
+            "6/C07", ["Props.C07Gen"]),
     "C03": ("proof",
             "FULL statement proved (Pack.lowerBound_le_bins): for every instance the constructor accepts and every feasible packing with "
             "90-degree rotation into k bins, lower_bound_bins <= k - the complete Dell'Amico/Martello/Vigo argument: the CUTSQ squares tile "
